@@ -16,6 +16,7 @@ NEXT, RETURN, RAISE, BREAK, CONTINUE = "next", "return", "raise", "break", "cont
 
 class State:
     __slots__ = ("vars", "facts", "trace")
+    alias_of = {}
 
     def __init__(self, vars=None, facts=None, trace=()):
         self.vars = dict(vars or {})
@@ -28,9 +29,18 @@ class State:
     def key(self):
         return (frozenset(self.vars.items()), frozenset(self.facts.items()))
 
-    def with_var(self, name, values):
+    def with_var(self, name, values, alias_of=None):
         s = self.copy()
-        s.vars[name] = frozenset(values)
+        vals = frozenset(values)
+        s.vars[name] = vals
+        table = alias_of if alias_of is not None else State.alias_of
+        # mirror the refinement to the expression this name aliases and to its other aliases
+        src = table.get(name, name)
+        for k, v in table.items():
+            if v == src and k != name:
+                s.vars[k] = vals
+        if src != name:
+            s.vars[src] = vals
         return s
 
     def with_fact(self, name, value):
@@ -136,6 +146,14 @@ class Semantics:
         self.finfo = finfo
         self.module = finfo.module
         self.h = Hierarchy(index)
+        self.alias_of = {}  # local name -> text of the tracked expression it was assigned from
+
+    def dom(self, text):
+        """Domain of a tracked expression or of a local alias of one."""
+        d = self.domain(text)
+        if d is None and text in self.alias_of:
+            d = self.domain(self.alias_of[text])
+        return d
 
     # --- domains
     def domain(self, text):
@@ -280,10 +298,10 @@ class Explorer:
         if isinstance(expr, ast.Constant):
             return [(bool(expr.value), state)]
         text = ast.unparse(expr)
-        if text in state.vars or sem.domain(text) is not None:
+        if text in state.vars or sem.dom(text) is not None:
             dom = state.vars.get(text)
             if dom is None:
-                dom = frozenset(sem.domain(text))
+                dom = frozenset(sem.dom(text))
             t = frozenset(v for v in dom if sem.truthy(v))
             f = dom - t
             out = []
@@ -310,7 +328,7 @@ class Explorer:
         def dom_of(text):
             if text in state.vars:
                 return state.vars[text]
-            d = sem.domain(text)
+            d = sem.dom(text)
             return frozenset(d) if d is not None else None
 
         ld, rd = dom_of(lt), dom_of(rt)
@@ -396,6 +414,22 @@ class Explorer:
                     state = self._assign_targets([tt], elts_v[i] if elts_v else None, state)
                 continue
             text = ast.unparse(t)
+            if isinstance(t, ast.Name) and (t.id.startswith("__ret") or t.id.startswith("__done")) and isinstance(value, ast.Constant):
+                state = state.copy()
+                state.vars[text] = frozenset([value.value])
+                sem.alias_of.pop(text, None)
+                continue
+            if isinstance(t, ast.Name) and value is not None:
+                vt = ast.unparse(value)
+                if sem.dom(vt) is not None and vt != text:
+                    sem.alias_of[text] = sem.alias_of.get(vt, vt)
+                    State.alias_of = sem.alias_of
+                    cur = state.vars.get(vt)
+                    state = state.copy()
+                    state.vars[text] = cur if cur is not None else frozenset(sem.dom(vt))
+                    continue
+                elif text in sem.alias_of:
+                    del sem.alias_of[text]
             dom = sem.domain(text)
             if dom is not None or text in state.vars:
                 vals = sem.assign(text, value, state)
@@ -423,8 +457,10 @@ class Explorer:
         outs = []
         for o in self.simple(st, state):
             if o.kind == NEXT:
-                o = Outcome(NEXT, self._assign_targets(st.targets, st.value, o.state), None, st)
-            outs.append(o)
+                for val, s2 in self._split_ifexp(st.value, o.state):
+                    outs.append(Outcome(NEXT, self._assign_targets(st.targets, val, s2), None, st))
+            else:
+                outs.append(o)
         return outs
 
     def s_AnnAssign(self, st, state):
@@ -517,6 +553,8 @@ class Explorer:
                 for s in frontier:
                     if test_expr is not None:
                         branches = self.test(test_expr, s)
+                    elif isinstance(st, ast.For) and isinstance(st.target, ast.Name) and st.target.id.startswith("__once"):
+                        branches = [(True, s)] if it == 0 else [(False, s)]
                     else:
                         skip, iterate = sem.enter_loop(st, s) if it == 0 else (True, True)
                         branches = ([(False, s)] if skip else []) + ([(True, s)] if iterate else [])
